@@ -746,6 +746,11 @@ class Gen:
                 one(W, fld({'k': 'bool'}, [('s', 65536)]), 'reject', 'bit=65536')
                 one(W, fld({'k': 'bool'}, [('s', 65535)]), 'reject', 'bit=65535')
                 one(W, fld({'k': 'u', 'n': 2}, [('s', 0), ('s', M)], lst=True), 'reject', 'list-with-2^64-1')
+            # arrays of one element are not arrays; with an element as wide as the base there is no room for a mask either
+            if k < 11:
+                one(W, fld({'k': 'u', 'n': W}, [('r', 0, W - 1)] if W > 1 else [('s', 0)], count=1, acc='rw'), 'reject', 'one-element-array-full-width')
+                one(W, fld({'k': 'u', 'n': W}, [('r', 0, W - 1)] if W > 1 else [('s', 0)], count=1, stride=W, acc='rw'), 'reject',
+                    'one-element-array-full-width-stride')
             # bool out of bounds
             one(W, fld({'k': 'bool'}, [('s', W)]), 'reject', 'bool-bit=W')
             if S > W:
